@@ -2558,6 +2558,10 @@ class Walker:
                 self.rz(outs, s, e, "IndexError", "index that may be out of range", [("nottype", b, frozenset(["dict"])), ("notok", t)])
             s = s.copy()
             s.add(("ok", t))
+            if ts is not None and not ts <= {"dict"} and "dict" in ts and ts <= subscriptable | JSON_TYPES and kt is not None and kt <= {"str"} and not is_slice:
+                # a str key: of the builtin types the value may have, only a dict can be indexed by it
+                ts = frozenset(["dict"])
+                s.add(("type", b, ts))
             if ts is not None and ts <= {"dict"}:
                 s.add(("has", b, k))
             if ts is not None and ts <= {"str"}:
